@@ -48,8 +48,21 @@ def run(ctx):
     C.driver(["handle"], ops, mod)
     for (ln, a, b) in C.diff_lines(imp, mod)[:3]:
         ctx.disagreements.append({"origin": "handle line %d" % ln, "level": "O+H", "implementation": a[:300], "model": b[:300], "theorem": "CfbVerif.Props.C10.C10_seek_refused"})
-    for msg in oracle[:3]:
-        C.add_violation(ctx, "seek:" + msg.split(" ")[-1], msg, "# C10/C06 oracle: %s\n" % msg)
+    import re as _re
+    from .c06 import split_scripts
+    scripts = split_scripts(open(ops).read().splitlines())
+    done = set()
+    for msg in oracle:
+        if ": refused " not in msg and "expected err invalidInput" not in msg:
+            continue
+        m = _re.match(r"script (\d+) ", msg)
+        idx = int(m.group(1))
+        what = _re.sub(r"^script \d+ \(seed \d+\): ", "", msg)
+        sig = "refused-" + what.replace("refused ", "").split(" ")[0] + (":bytes-changed" if "file bytes changed" in what else ":state-changed" if "state changed" in what else ":not-refused")
+        if (sig, idx) in done or len(done) >= 6:
+            continue
+        done.add((sig, idx))
+        C.add_violation(ctx, sig, what, "# C10 violation found by the refusal oracle on the implementation (seed %s script %d)\n# %s\n# replay: harness handle --replay <this file> --ops o --impl i\n%s\n" % (ctx.seed, idx, what, "\n".join(scripts[idx][1])))
     refusals = sum(v for k, v in hist.items() if k.endswith("err notFound") or k.endswith("err alreadyExists") or k.endswith("err invalidInput"))
     refusals += h.get("out:err invalidInput", 0)
     total_ops += stat.get("ops", 0)
